@@ -22,10 +22,11 @@ for d in sorted(glob.glob(os.path.join(V, "seeded", "*"))):
     rows.append("| %s | %s | %s | %s | %s |" % (n, prop, what, ", ".join(caught) or "—", ", ".join(missed + ["%s (exit 2)" % c for c in other]) or ""))
 out = ["## Appendix F — seeded changes and the checks that catch them", "",
        "`tools/seedrun.py <seed> <IDs>` applies `seeded/<seed>/patch.diff` to a scratch worktree of /repo's HEAD and runs the registered quick checks of a",
-       "snapshot of /verif against it (equivalent to `git -C /repo apply` + check + `git -C /repo checkout -- .`). 80 changes come from independent sub-agents",
-       "(rounds a/b, c/d; each confirmed by `tools/seedconfirm.py`: applies, existing suite passes, demonstration fails with / passes without), 28 (`own-*`) are",
-       "hand-written calibration changes from Appendix D. Column *caught by* lists the quick checks that print VIOLATION; *not by* lists quick checks that were run",
-       "against the change and stayed silent (for a check of another property that is the correct answer).", "",
+       "snapshot of /verif against it (equivalent to `git -C /repo apply` + check + `git -C /repo checkout -- .`). The `C??[a-j]` changes come from independent",
+       "sub-agents that saw only the property text and a scratch worktree (rounds a/b ... i, j; each confirmed by `tools/seedconfirm.py`: applies, existing suite passes,",
+       "demonstration fails with / passes without); `own-*` are hand-written calibration changes. `tools/matrix.py` runs each change against the quick check of the",
+       "property it breaks and, when that check stays silent, against all the others. Column *caught by* lists the quick checks that print VIOLATION; *run but silent*",
+       "lists checks that were run against the change and printed nothing (for a check of another property that is the correct answer).", "",
        "| seed | breaks | change | caught by | run but silent |", "|---|---|---|---|---|"] + rows
 total = len(rows)
 caught = sum(1 for r in rows if "| — |" not in r)
